@@ -390,19 +390,23 @@ def users_job(interp, c, case):
     pv = M.params_values
     sv = np.array(sv0, dtype=object)
     A, B = sv0
-    c.prove(s_and(p.get_propensity(ptr(interp, sv), ptr(interp, pv), t) == k * A + t,
+    ok = c.prove(s_and(p.get_propensity(ptr(interp, sv), ptr(interp, pv), t) == k * A + t,
                   p.get_stochastic_propensity(ptr(interp, sv), ptr(interp, pv), t) == k * A + t,
                   p.get_volume_propensity(ptr(interp, sv), ptr(interp, pv), V, t) == k * A * V + t,
                   p.get_stochastic_volume_propensity(ptr(interp, sv), ptr(interp, pv), V, t) == k * A * V + t),
             "general propensity: 'volume' reads 1 without a volume and V with one, in all four modes",
             info={"sig": "general propensity modes", "what": "general propensity"})
+    if ok is False:
+        c.failures[-1]["replay"] = {"kind": "modes"}
     r = M.repeat_rules[0]
     s1 = np.array(sv0, dtype=object)
     r.execute_rule(ptr(interp, s1), ptr(interp, pv), t, dt, 1)
     s2 = np.array(sv0, dtype=object)
     r.execute_volume_rule(ptr(interp, s2), ptr(interp, pv), V, t, dt, 1)
-    c.prove(s_and(s1[M.species2index["B"]] == k * A + 1, s2[M.species2index["B"]] == k * A + V, s1[0] == A, s2[0] == A),
-            "general assignment rule evaluates its right-hand side with volume = 1 / V", info={"sig": "rule modes", "what": "rule"})
+    ok = c.prove(s_and(s1[M.species2index["B"]] == k * A + 1, s2[M.species2index["B"]] == k * A + V, s1[0] == A, s2[0] == A),
+                 "general assignment rule evaluates its right-hand side with volume = 1 / V", info={"sig": "rule modes", "what": "rule"})
+    if ok is False:
+        c.failures[-1]["replay"] = {"kind": "modes"}
     sdv = T.ns["StateDependentVolume"]()
     sdv.setup(c.real("Vd", lo=0), c.real("noise", lo=0), "k*A/(1 + B) + 0.25*t", M)
     step = sdv.get_volume_step(ptr(interp, sv), ptr(interp, pv), t, V, dt)
